@@ -50,8 +50,15 @@ impl Trie {
         &'a self,
         input: &'a [char],
     ) -> impl Iterator<Item = TrieMatch> + 'a {
+        // U+0000 is the end marker of the underlying trie: it never occurs in a key, and feeding
+        // it to the search would report a key followed by U+0000 as a match of that key.
         self.da
-            .common_prefix_search(input.iter().cloned())
+            .common_prefix_search(
+                input
+                    .iter()
+                    .cloned()
+                    .take_while(|&c| c != crawdad::END_MARKER),
+            )
             .map(move |(value, end_char)| TrieMatch::new(value, end_char))
     }
 }
